@@ -28,6 +28,17 @@ def gen_args(rng, f, malformed_rate=0.15):
             dims = rng.sample([1, 2, 3, 4, 5, 6, 7], 3)
             vals[p] = tuple(dims)
             rows, cols, slices = dims
+    if f['name'] in ('resize', '_resize', 'scale', 'Resize_apply', 'Resize_apply_to_mask', 'RandomScale_apply', 'RandomScale_apply_to_mask'):
+        # SciPy zoom: voxel-exact comparison is possible for order 0 only; keep the rendered volumes small
+        for p, t in params:
+            if p == 'interpolation':
+                vals[p] = 0
+            elif p in ('height', 'width', 'depth'):
+                vals[p] = rng.randint(1, 11) if not (mal and rng.random() < 0.3) else 0
+            elif p == 'dsize':
+                vals[p] = (rng.randint(1, 11), rng.randint(1, 11), rng.randint(1, 11))
+            elif p == 'scale':
+                vals[p] = Fr(rng.randint(2, 20), 8)
     for p, t in params:
         if p in vals:
             continue
